@@ -14,15 +14,15 @@ Print Assumptions C13_memory_info_statm.
 
 (* the three regular-expression scans of _parse_smaps give, for every listing, the sums
    over all mappings of private (clean + dirty + hugetlb), proportional and swapped kB *)
-Theorem C13_smaps_sums : forall ex ms, forallb (wf_kernel ex) ms = true ->
+Theorem C13_smaps_sums : forall ms, forallb wf_kernel0 ms = true ->
   parse_smaps Alive (FContent (k_smaps ms)) = Val (spec_sums ms).
 Proof. exact parse_smaps_spec. Qed.
 Print Assumptions C13_smaps_sums.
 
 (* memory_full_info() with the per-mapping listing as the source (kernel without
    smaps_rollup, or the roll-up answering ENOENT / ESRCH) *)
-Theorem C13_full_info_smaps : forall ex pagesize r ms has_rollup rollup,
-  wf_statm r = true -> forallb (wf_kernel ex) ms = true ->
+Theorem C13_full_info_smaps : forall pagesize r ms has_rollup rollup,
+  wf_statm r = true -> forallb wf_kernel0 ms = true ->
   has_rollup = false \/ rollup = FENOENT \/ rollup = FESRCH ->
   memory_full_info Alive pagesize has_rollup rollup (FContent (k_smaps ms)) (FContent (k_statm r))
   = Val (spec_full pagesize r ms).
@@ -53,7 +53,7 @@ Print Assumptions C13_rollup_ignores_decoys.
    MMUPageSize, Pss_Dirty, KSM, ..., SwapPss, Locked, THPeligible, ProtectionKey, VmFlags) with
    arbitrary values; sums and rows are those of the figures *)
 Theorem C13_smaps_ignores_decoys : forall ex ms,
-  (forall m, In m ms -> wf_header ex m = true /\
+  (forall m, In m ms -> wf_header m = true /\ marker_ok ex m = true /\ probe_answers ex m = true /\
      exists fv d fl, m_lines m = k6_lines fv d fl /\ (forall f, is_dec (fv f) = true) /\
                      (forall i, is_dec (d i) = true) /\ fl <> [] /\ forallb flag_ok fl = true) ->
   parse_smaps Alive (FContent (k_smaps ms)) = Val (spec_sums ms)
@@ -73,8 +73,8 @@ Print Assumptions C13_full_info_rollup.
 (* the same record whether the roll-up or the listing is the source -- exact hypothesis:
    the roll-up's Private_*, Pss and Swap lines are the sums of the listing's lines
    ([consistent]) *)
-Theorem C13_rollup_agrees : forall ex pagesize r ms rl,
-  wf_statm r = true -> forallb (wf_kernel ex) ms = true -> wf_rollup rl = true -> consistent rl ms = true ->
+Theorem C13_rollup_agrees : forall pagesize r ms rl,
+  wf_statm r = true -> forallb wf_kernel0 ms = true -> wf_rollup rl = true -> consistent rl ms = true ->
   memory_full_info Alive pagesize true (FContent (k_rollup rl)) (FContent (k_smaps ms)) (FContent (k_statm r))
   = memory_full_info Alive pagesize false (FContent (k_rollup rl)) (FContent (k_smaps ms)) (FContent (k_statm r)).
 Proof. exact rollup_agrees. Qed.
@@ -97,11 +97,47 @@ Print Assumptions C13_full_info_rollup_rounded.
    own ten figures (0 for a figure the kernel does not print) -- any number of mappings, any
    path bytes after a non-blank first byte (blanks inside or at the end, colons, " (deleted)",
    non-UTF-8; a newline appears as the kernel shows it, \012), any kernel line set as long as it
-   is the same for every mapping (uniform_figs) *)
+   is the same for every mapping (uniform_figs); [wf_kernel probe] = the kernel's guarantees
+   (wf_kernel0) + the " (deleted)" marker is readable (marker_ok) + the existence probe of a
+   marked name answers "there" or "not there", the latter for whatever errno (probe_answers) *)
 Theorem C13_maps_ungrouped : forall ex ms, forallb (wf_kernel ex) ms = true -> uniform_figs ms = true ->
   memory_maps Alive ex (FContent (k_smaps ms)) = Val (map spec_row ms).
 Proof. exact maps_ungrouped. Qed.
 Print Assumptions C13_maps_ungrouped.
+
+(* the existence probe (os.stat of a name that ends in " (deleted)") is a 3-way value: there /
+   not there for ANY OSError but a permission error (ENOENT, ENOTDIR, ENAMETOOLONG for a
+   246..255-byte last component or a > 4095-byte path, ELOOP, EIO, EOVERFLOW ...) / permission
+   denied.  For every listing and every probe that answers: one row per smaps record, in the
+   records' order, every column but the path the record's own, the path the shown name with
+   the marker cut unless a file of the marked name exists -- no error, nothing dropped *)
+Theorem C13_maps_rows_any_probe : forall ex ms,
+  forallb wf_kernel0 ms = true -> uniform_figs ms = true -> forallb (probe_answers ex) ms = true ->
+  exists rows, memory_maps Alive ex (FContent (k_smaps ms)) = Val rows
+    /\ length rows = length ms
+    /\ map w_addr rows = map m_addr ms /\ map w_perms rows = map m_perms ms
+    /\ map w_nums rows = map (fun m => map (fun f => kb m f * 1024) row_figs) ms
+    /\ map w_path rows = map (row_path ex) ms.
+Proof. exact maps_rows_any_probe. Qed.
+Print Assumptions C13_maps_rows_any_probe.
+
+(* which errno made the probe say "not there" is irrelevant to the path *)
+Theorem C13_absent_errno_irrelevant : forall ex ex' m,
+  path_head_ok m = true -> m_deleted m = true ->
+  is_exists (ex (shown_path m)) = false -> is_exists (ex' (shown_path m)) = false ->
+  row_path ex m = row_path ex' m.
+Proof. exact absent_errno_irrelevant. Qed.
+Print Assumptions C13_absent_errno_irrelevant.
+
+(* probe_answers cannot be dropped: a PermissionError of the probe fails the whole call with
+   AccessDenied although the smaps file was read (path_exists_strict re-raises it) *)
+Theorem C13_maps_probe_denied_refuted :
+  forallb wf_kernel0 [ex_m1; ex_m2] = true /\ uniform_figs [ex_m1; ex_m2] = true
+  /\ m_deleted ex_m1 = true /\ probe_answers deny_all ex_m1 = false
+  /\ memory_maps Alive deny_all (FContent (k_smaps [ex_m1; ex_m2])) = Exc AccessDenied
+  /\ map w_path (map spec_row [ex_m1; ex_m2]) = [bs "/tmp/a b:c"; bs "[anon]"].
+Proof. exact maps_probe_denied_refuted. Qed.
+Print Assumptions C13_maps_probe_denied_refuted.
 
 (* ... uniform_figs cannot be dropped: get_blocks never clears its dict, so a mapping lacking
    a line that an earlier mapping printed inherits the earlier value (no kernel prints that) *)
@@ -115,7 +151,7 @@ Print Assumptions C13_maps_stale_dict_refuted.
 
 (* ... nor the non-blank first byte: a leading blank is indistinguishable from the padding *)
 Theorem C13_maps_leading_blank_observation :
-  wf_body (m_lines blank_m) = true /\ path_ok no_files blank_m = false
+  wf_body (m_lines blank_m) = true /\ path_head_ok blank_m = false
   /\ exists rows, memory_maps Alive no_files (FContent (k_smaps [blank_m])) = Val rows
                  /\ map w_path rows = [bs "/tmp/a"] /\ m_path blank_m = 32 :: bs "/tmp/a".
 Proof. exact maps_leading_blank_observation. Qed.
@@ -143,8 +179,8 @@ Print Assumptions C13_maps_newline_name_observation.
    end of a mapped file's name; the present one returns the mapping's own path *)
 Theorem C13_legacy_strip_refuted :
   wf_kernel no_files wit_blank = true
-  /\ clean_path_legacy no_files (shown_path wit_blank) = bs "/tmp/a"
-  /\ clean_path no_files (shown_path wit_blank) = m_path wit_blank
+  /\ clean_path_legacy no_files (shown_path wit_blank) = Val (bs "/tmp/a")
+  /\ clean_path no_files (shown_path wit_blank) = Val (m_path wit_blank)
   /\ m_path wit_blank = bs "/tmp/a ".
 Proof. exact legacy_strip_refuted. Qed.
 Print Assumptions C13_legacy_strip_refuted.
@@ -202,8 +238,8 @@ Proof. exact percent_attr_names_rejected. Qed.
 Print Assumptions C13_percent_attr_names_rejected.
 
 (* memory_percent over the kernel's files *)
-Theorem C13_percent_kernel : forall ex pagesize r ms name total,
-  wf_statm r = true -> forallb (wf_kernel ex) ms = true -> 0 < total ->
+Theorem C13_percent_kernel : forall pagesize r ms name total,
+  wf_statm r = true -> forallb wf_kernel0 ms = true -> 0 < total ->
   memory_percent name (with_file Alive (FContent (k_statm r)) (memory_info pagesize))
                  (memory_full_info Alive pagesize false FENOENT (FContent (k_smaps ms)) (FContent (k_statm r))) total
   = spec_percent name (spec_full pagesize r ms) total.
@@ -221,8 +257,8 @@ Theorem C13_percent_history_cache : forall full, length full = 10%nat ->
 Proof. exact hist_spec. Qed.
 Print Assumptions C13_percent_history_cache.
 
-Theorem C13_percent_history : forall ex pagesize r ms kernel0 ops,
-  wf_statm r = true -> forallb (wf_kernel ex) ms = true -> hist_ok ops = true -> 0 < kernel0 ->
+Theorem C13_percent_history : forall pagesize r ms kernel0 ops,
+  wf_statm r = true -> forallb wf_kernel0 ms = true -> hist_ok ops = true -> 0 < kernel0 ->
   run_hist (with_file Alive (FContent (k_statm r)) (memory_info pagesize))
            (memory_full_info Alive pagesize false FENOENT (FContent (k_smaps ms)) (FContent (k_statm r)))
            None kernel0 ops
